@@ -74,15 +74,8 @@ def plan(tier):
             ([Config(l, z, 'M') for l in langs], [('prng', 3)], 1, 8),
             ([Config(l, z, 'D') for l in langs], [('prng', c) for c in range(1, 7)] + ['first', 'alt'], 0, 1),
         ]
-    sw = [(a, b, c, d) for a in (0, 1) for b in (0, 1) for c in (0, 1) for d in (0, 1)]
-    pol = ['first', 'last', 'alt'] + [('prng', c) for c in range(1, 9)]
-    return [
-        ([Config(l, s, 'S', o) for l in langs for s in sw for o in ('asc', 'desc')], pol, 1, 4),
-        ([Config(l, z, 'XS') for l in langs], [('prng', 1), ('prng', 2)], 2, 16),
-        ([Config(l, s, 'M') for l in langs for s in (z, (1, 1, 1, 1))], [('prng', c) for c in range(1, 7)], 1, 16),
-        ([Config(l, z, 'D') for l in langs], [('prng', 1), ('prng', 2)], 1, 32),
-        ([Config(l, s, 'D') for l in langs for s in sw], pol, 0, 1),
-    ]
+    from mc import plans
+    return plans.thorough(langs, 'light', plans.VECTORS4 + [(0, 1, 0, 0), (0, 0, 0, 1)])
 
 
 def run(tier, seed, jobs, prop=PROP, rules='typing'):
